@@ -335,7 +335,9 @@ class LinalgProxy:
         return contracts.solve(A, b)
 
     def pinv(self, A, *a, **k):
-        return contracts.pinv(A)
+        if a:
+            k = dict(k, rcond=a[0])
+        return contracts.pinv(A, **k)
 
     def det(self, A):
         return contracts.det(A)
